@@ -21,7 +21,7 @@ pub fn header_byte() -> BoxedStrategy<u8> {
         1 => Just(b'+'),
         1 => Just(b';'),
         1 => Just(b'\r'),
-        1 => prop::sample::select(&[0x80u8, 0xc3, 0xff, 0xe2, 0x00, 0x09][..]),
+        2 => prop::sample::select(&[0x80u8, 0xc3, 0xa9, 0xff, 0xe2, 0x82, 0xac, 0x00, 0x09, 0x0b, 0x0c, 0x85, 0x1a, 0x7f][..]),
     ]
     .boxed()
 }
@@ -34,7 +34,7 @@ pub fn seq_byte() -> BoxedStrategy<u8> {
         1 => Just(b'\r'),
         1 => Just(b'@'),
         1 => Just(b'+'),
-        1 => prop::sample::select(&[0xffu8, 0x80, b'-', b'*'][..]),
+        1 => prop::sample::select(&[0xffu8, 0x80, b'-', b'*', 0x0b, 0x0c, 0x85, 0x00, b'>'][..]),
     ]
     .boxed()
 }
@@ -53,9 +53,12 @@ pub fn qual_byte() -> BoxedStrategy<u8> {
 
 pub fn header() -> BoxedStrategy<Vec<u8>> {
     prop_oneof![
-        8 => vec(header_byte(), 0..12),
-        1 => Just(vec![]),
-        1 => vec(header_byte(), 12..40),
+        32 => vec(header_byte(), 0..12),
+        4 => Just(vec![]),
+        4 => vec(header_byte(), 12..40),
+        // multi-byte UTF-8 (split points anywhere), and lengths around 255 / 256
+        2 => vec(prop::sample::select(&["a", "\u{e9}", "\u{20ac}", " ", "\u{1f9ec}", "x"][..]), 0..12).prop_map(|v| v.concat().into_bytes()),
+        1 => (250usize..262, header_byte()).prop_map(|(n, b)| vec![if b == b'\r' { b'x' } else { b }; n]),
     ]
     .boxed()
 }
@@ -570,8 +573,8 @@ pub fn term_kind(m: &Model) -> &'static str {
 // big documents (tens of kilobytes, hundreds of records, capacities up to the 64 KiB default)
 
 pub fn big_input(format: Format) -> BoxedStrategy<B> {
-    let rec = (1usize..12, prop_oneof![3 => 0usize..80, 2 => 80usize..400, 1 => 400usize..3000], any::<u8>());
-    (vec(rec, 20..200), endings(), any::<bool>(), prop_oneof![1 => Just(60usize), 1 => Just(70usize), 1 => 1usize..200], prop::option::weighted(0.3, any::<u16>()))
+    let rec = (prop_oneof![8 => 1usize..12, 1 => 240usize..270], prop_oneof![3 => 0usize..80, 2 => 80usize..400, 1 => 400usize..3000], any::<u8>());
+    (prop_oneof![4 => vec(rec.clone(), 20..200), 1 => vec((1usize..4, 0usize..12, any::<u8>()), 250..700)], endings(), any::<bool>(), prop_oneof![1 => Just(60usize), 1 => Just(70usize), 1 => 1usize..200], prop::option::weighted(0.3, any::<u16>()))
         .prop_map(move |(recs, e, final_term, width, truncate)| {
             let mut out = Vec::new();
             let mut bit = 0usize;
